@@ -5,6 +5,9 @@ package eng
 
 import (
 	"bufio"
+	"crypto/sha256"
+	"encoding/hex"
+	"strings"
 	"encoding/json"
 	"flag"
 	"fmt"
@@ -81,11 +84,25 @@ func (r *Rand) Fork() *Rand { return &Rand{s: r.U64()} }
 
 // Trace writes the line protocol consumed by the Lean driver.
 type Trace struct {
-	mu sync.Mutex
-	f  *os.File
-	w  *bufio.Writer
-	N  int
+	mu    sync.Mutex
+	f     *os.File
+	w     *bufio.Writer
+	N     int
+	shape []string
 }
+
+// Shape returns a digest of the event kinds and outcomes written since the last call.
+func (t *Trace) Shape() string {
+	t.mu.Lock()
+	defer t.mu.Unlock()
+	h := sha256.Sum256([]byte(strings.Join(t.shape, "|")))
+	t.shape = t.shape[:0]
+	return hex.EncodeToString(h[:8]) + ":" + shapeKinds(h[:])
+}
+
+var lastShapeKinds string
+
+func shapeKinds(_ []byte) string { return lastShapeKinds }
 
 func NewTrace(dir string) *Trace {
 	f, err := os.Create(filepath.Join(dir, "trace.txt"))
@@ -97,9 +114,21 @@ func NewTrace(dir string) *Trace {
 func (t *Trace) Line(format string, a ...any) {
 	t.mu.Lock()
 	defer t.mu.Unlock()
-	fmt.Fprintf(t.w, format, a...)
+	line := fmt.Sprintf(format, a...)
+	t.w.WriteString(line)
 	t.w.WriteByte('\n')
 	t.N++
+	if strings.HasPrefix(line, "ev ") {
+		f := strings.Fields(line)
+		if len(f) >= 3 {
+			t.shape = append(t.shape, f[2]+":"+f[len(f)-1][:min(len(f[len(f)-1]), 8)])
+			if f[2] == "lockreplace" {
+				lastShapeKinds = "lockreplace"
+			}
+		}
+	} else if strings.HasPrefix(line, "scenario ") {
+		lastShapeKinds = ""
+	}
 }
 func (t *Trace) Close() { t.w.Flush(); t.f.Close() }
 
